@@ -104,11 +104,16 @@ Definition toks_of (dt : Z) (d : list Z) : list tok := map (TB dt) d.
 
 (* _deliver_data: window decremented on delivery, replenished to the initial value when less
    than half of it is left; returns the window adjust packets to send back *)
+(* once the receiver has answered the peer's CLOSE its own sending side is closed
+   (_close_send sets _send_chan = None) and channel.send_packet silently drops window adjusts *)
+Definition r_sclosed (r : receiver) : bool :=
+  match r_state r with RClosePending | RClosed => true | _ => false end.
+
 Definition r_deliver (r : receiver) (dt : Z) (d : list Z) : receiver * list pkt :=
   let w := r_win r - zlen d in
   if 2 * w <? r_init r
   then (mkR (r_buf r) (r_init r) (r_init r) (r_paused r) (r_state r) (r_err r) (r_out r ++ toks_of dt d),
-        [PAdjust (r_init r - w)])
+        if r_sclosed r then [] else [PAdjust (r_init r - w)])
   else (mkR (r_buf r) w (r_init r) (r_paused r) (r_state r) (r_err r) (r_out r ++ toks_of dt d), []).
 
 (* deliver the first k buffered entries (k = None: all of them); the session may pause again
